@@ -77,6 +77,16 @@ impl ExtendedPublicKey {
         let mut checksum = vec![0; 4];
         cursor.read_exact(&mut checksum)?;
 
+        let payload_len = cursor.position() as usize - 4;
+        let decoded_bytes = cursor.get_ref();
+        if decoded_bytes.len() != payload_len + 4 {
+            return Err(BSVErrors::GenericError("Extended public key has trailing bytes after the checksum".into()));
+        }
+
+        if checksum != Hash::sha_256d(&decoded_bytes[..payload_len]).to_bytes()[0..4] {
+            return Err(BSVErrors::GenericError("Extended public key checksum does not match".into()));
+        }
+
         Ok(ExtendedPublicKey {
             public_key,
             chain_code,
